@@ -352,6 +352,42 @@ def finish_trace_check(prop, tier, seed, res, t0, total_cases, extra_cov=None, e
     return 1 if nviol else 0
 
 
+def replay_file(prop, path):
+    """./check Cxx --replay <path>: re-runs the recorded case on the real code as it is now
+    (rebuilt from /repo's working tree) and lets TLC judge the new trace with the rules of the
+    property.  Exit 1 + VIOLATION line if a rule of the property fails again, 0 if not, 2 if
+    the file is not a recorded case (model counterexamples and graph replays are plain
+    reports: re-run the check itself for those)."""
+    try:
+        rec = json.load(open(path))
+    except (OSError, ValueError) as e:
+        raise vlib.ToolError(f"cannot read {path}: {e}")
+    events = rec.get("trace") or []
+    begins = [e for e in events if e.get("ev") == "begin"]
+    if not begins:
+        log(f"{path} is not a recorded solver case (it is a report of another kind); re-run ./check {prop}")
+        return 2
+    enable_rules(prop)
+    b0 = begins[0]
+    profile = b0["profile"].split("+")[0]
+    case = {"id": b0["id"], "profile": b0["profile"], "u": b0["u"], "ps": [b["p"] for b in begins], "cfg": b0["cfg"]}
+    wd = vlib.fresh_dir(os.path.join(vlib.WORK, prop + "_replay"))
+    cases = os.path.join(wd, "replay.cases")
+    with open(cases, "w") as f:
+        f.write(json.dumps(case) + "\n")
+    bp = "dbg" if "@dbg" in rec.get("info", "") or rec.get("build_profile") == "dbg" else "release"
+    exe = vlib.build_harness(bp)
+    res = vlib.run_and_validate(exe, [cases], prop + "-replay", jobs=1)
+    mine = [f for f in vlib.first_fail_per_run(res.fails) if owned_by(prop, f["rule"])]
+    log(f"[{prop}] replayed case {b0['id']} ({profile}, recorded rule {rec.get('rule')}): "
+        f"{[f['rule'] for f in mine] or 'no rule of the property fails now'}")
+    for f in mine[:1]:
+        p2 = vlib.write_replay(prop, f)
+        print(f"VIOLATION property={prop} replay={p2}")
+        return 1
+    return 0
+
+
 def main():
     args = sys.argv[1:]
     if not args:
@@ -363,6 +399,12 @@ def main():
         tier = args[args.index("--tier") + 1]
     seed = int(os.environ.get("VERIF_SEED", "1"))
     t0 = time.time()
+    if "--replay" in args:
+        try:
+            return replay_file(prop, args[args.index("--replay") + 1])
+        except vlib.ToolError as e:
+            log("TOOL ERROR:", e)
+            return 2
     try:
         import props
         fn = props.CHECKS.get(prop)
